@@ -243,12 +243,23 @@ def _run(ctx, base):
         elif kind == "validate":
             version = r.choice([None, 7.6, 8.0, 8.2])
             files = []
-            targets = r.choice([[0], [0, 0], [1], [2], [0, 1], [254], [255], [256], [257], [300], [1, "bad"], ["bad"], [0, "bad"], [3, 0, "bad", 2]])
-            forced = [[254], [255], [256], [257], ["bad"], [0, "bad"], [300], [1, "bad"]]
+            targets = r.choice([[0], [0, 0], [1], [2], [0, 1], [254], [255], [256], [257], [300], [1, "bad"], ["bad"], [0, "bad"], [3, 0, "bad", 2],
+                                ["bad-latin1", 2], [1, "bad-selfinclude", 0], ["bad-latin1", "bad", 0, 3], [0, "bad-selfinclude"]])
+            forced = [[254], [255], [256], [257], ["bad"], ["bad-latin1", 2], [300], [1, "bad-selfinclude", 0]]
             if res.counters["cli:validate"] == 1 and ctx.shard < len(forced):
                 targets = forced[ctx.shard]  # boundary cases are always present, one per shard
             for k2, t in enumerate(targets):
                 fn = os.path.join(wd, f"v{j}_{k2}.map")
+                if t == "bad-latin1":
+                    with open(fn, "wb") as f:
+                        f.write('MAP\n  NAME "caf\xe9"\nEND\n'.encode("latin-1"))
+                    files.append(fn)
+                    continue
+                if t == "bad-selfinclude":
+                    with open(fn, "w", encoding="utf-8") as f:
+                        f.write(f'MAP\n  INCLUDE "{os.path.basename(fn)}"\nEND\n')
+                    files.append(fn)
+                    continue
                 if t == "bad":
                     body = 'MAP\n NAME "unterminated\n'
                 else:
